@@ -482,6 +482,32 @@ func VH21d_busy() {
 	})
 	verif.Quiesce()
 	verif.Assert(g.Done(), lab+"/listener-wedged-after-failed-listen")
+	if gu := verif.Choice("loser-gives-up", 3); gu > 0 {
+		// the refused listener (or its whole socket) is closed: the holder of the address is not affected - it
+		// still accepts, and the address is still taken
+		if gu == 1 {
+			l.Close()
+		} else {
+			sock.Close()
+		}
+		verif.Quiesce()
+		L := vnet.N.Listeners[key]
+		verif.Assert(L != nil, lab+"/closing-the-refused-listener-unbound-the-holders-address")
+		if L == nil {
+			return
+		}
+		c := L.Connect("c")
+		c.PeerSend(vnet.SPHeader(blocker.Info().Peer))
+		verif.Quiesce()
+		verif.Assert(!c.Closed, lab+"/holder-of-the-address-stopped-accepting-after-the-refused-listener-was-closed")
+		third := vp.New("bus")
+		verif.Assert(doListen(third, url) != nil, lab+"/address-handed-out-twice")
+		third.Close()
+		blocker.Close()
+		verif.Quiesce()
+		verif.Reach("loser-gave-up")
+		return
+	}
 	blocker.Close()
 	verif.Quiesce()
 	e2 := l.Listen()
